@@ -5,201 +5,7 @@
 use sfv::sf::traits::{Fixed, FixedSigned};
 use sfv::*;
 
-struct Ctx {
-    wr: Wr,
-    ops: Vec<String>,
-    tier: String,
-    seed: u64,
-    pr: u8,
-    npairs: usize,
-}
-
-const PROFILE: u8 = if cfg!(debug_assertions) { 1 } else { 0 };
-
-fn head(c: &mut Ctx, k: &str, op: &str, l: Lay) {
-    c.wr.raw("{\"k\":\"");
-    c.wr.raw(k);
-    c.wr.raw("\",\"op\":\"");
-    c.wr.raw(op);
-    c.wr.raw("\",\"pr\":");
-    c.wr.raw(if c.pr == 1 { "1" } else { "0" });
-    c.wr.raw(",\"L\":");
-    c.wr.lay(l);
-}
-
-fn ev_bin<F: Fx>(c: &mut Ctx, op: &str, ar: u128, br: u128) {
-    let a = F::from_raw(ar);
-    let b = F::from_raw(br);
-    let o: [Out; 5] = match op {
-        "add" => [o_val(|| a + b), o_opt(|| a.checked_add(b)), o_val(|| a.saturating_add(b)), o_val(|| a.wrapping_add(b)), o_pair(|| a.overflowing_add(b))],
-        "sub" => [o_val(|| a - b), o_opt(|| a.checked_sub(b)), o_val(|| a.saturating_sub(b)), o_val(|| a.wrapping_sub(b)), o_pair(|| a.overflowing_sub(b))],
-        "mul" => [o_val(|| a * b), o_opt(|| a.checked_mul(b)), o_val(|| a.saturating_mul(b)), o_val(|| a.wrapping_mul(b)), o_pair(|| a.overflowing_mul(b))],
-        "div" => [o_val(|| a / b), o_opt(|| a.checked_div(b)), o_val(|| a.saturating_div(b)), o_val(|| a.wrapping_div(b)), o_pair(|| a.overflowing_div(b))],
-        "rem" => [o_val(|| a % b), o_opt(|| a.checked_rem(b)), Out::Absent, Out::Absent, Out::Absent],
-        "div_euclid" => [o_val(|| a.div_euclid(b)), o_opt(|| a.checked_div_euclid(b)), o_val(|| a.saturating_div_euclid(b)), o_val(|| a.wrapping_div_euclid(b)), o_pair(|| a.overflowing_div_euclid(b))],
-        "rem_euclid" => [o_val(|| a.rem_euclid(b)), o_opt(|| a.checked_rem_euclid(b)), Out::Absent, Out::Absent, Out::Absent],
-        _ => return,
-    };
-    head(c, "bin", op, F::lay());
-    c.wr.raw(",\"a\":");
-    c.wr.num(a.val());
-    c.wr.raw(",\"b\":");
-    c.wr.num(b.val());
-    c.wr.raw(",\"o\":");
-    c.wr.outs(&o);
-    c.wr.raw("}");
-    c.wr.end();
-}
-
-fn ev_bini<F: Fx>(c: &mut Ctx, op: &str, ar: u128, nr: u128) {
-    let a = F::from_raw(ar);
-    let n = || F::int_from_raw(nr);
-    let o: [Out; 5] = match op {
-        "mul_int" => [o_val(|| a * n()), o_opt(|| a.checked_mul_int(n())), o_val(|| a.saturating_mul_int(n())), o_val(|| a.wrapping_mul_int(n())), o_pair(|| a.overflowing_mul_int(n()))],
-        "div_int" => [o_val(|| a / n()), o_opt(|| a.checked_div_int(n())), Out::Absent, o_val(|| a.wrapping_div_int(n())), o_pair(|| a.overflowing_div_int(n()))],
-        "rem_int" => [o_val(|| a % n()), o_opt(|| a.checked_rem_int(n())), Out::Absent, o_val(|| a.wrapping_rem_int(n())), o_pair(|| a.overflowing_rem_int(n()))],
-        "div_euclid_int" => [o_val(|| a.div_euclid_int(n())), o_opt(|| a.checked_div_euclid_int(n())), Out::Absent, o_val(|| a.wrapping_div_euclid_int(n())), o_pair(|| a.overflowing_div_euclid_int(n()))],
-        "rem_euclid_int" => [o_val(|| a.rem_euclid_int(n())), o_opt(|| a.checked_rem_euclid_int(n())), Out::Absent, o_val(|| a.wrapping_rem_euclid_int(n())), o_pair(|| a.overflowing_rem_euclid_int(n()))],
-        _ => return,
-    };
-    head(c, "bini", op, F::lay());
-    c.wr.raw(",\"a\":");
-    c.wr.num(a.val());
-    c.wr.raw(",\"n\":");
-    c.wr.num(sval(nr, F::S, F::W));
-    c.wr.raw(",\"o\":");
-    c.wr.outs(&o);
-    c.wr.raw("}");
-    c.wr.end();
-}
-
-fn ev_un<F: Fx>(c: &mut Ctx, op: &str, ar: u128) {
-    let a = F::from_raw(ar);
-    let o: [Out; 5] = match op {
-        // plain negation of unsigned types does not exist
-        "neg" => [Out::Absent, o_opt(|| a.checked_neg()), o_val(|| a.saturating_neg()), o_val(|| a.wrapping_neg()), o_pair(|| a.overflowing_neg())],
-        "ceil" => [o_val(|| a.ceil()), o_opt(|| a.checked_ceil()), o_val(|| a.saturating_ceil()), o_val(|| a.wrapping_ceil()), o_pair(|| a.overflowing_ceil())],
-        "floor" => [o_val(|| a.floor()), o_opt(|| a.checked_floor()), o_val(|| a.saturating_floor()), o_val(|| a.wrapping_floor()), o_pair(|| a.overflowing_floor())],
-        "round" => [o_val(|| a.round()), o_opt(|| a.checked_round()), o_val(|| a.saturating_round()), o_val(|| a.wrapping_round()), o_pair(|| a.overflowing_round())],
-        "round_ties_to_even" => [o_val(|| a.round_ties_to_even()), o_opt(|| a.checked_round_ties_to_even()), o_val(|| a.saturating_round_ties_to_even()), o_val(|| a.wrapping_round_ties_to_even()), o_pair(|| a.overflowing_round_ties_to_even())],
-        "round_to_zero" => [o_val(|| a.round_to_zero()), Out::Absent, Out::Absent, Out::Absent, Out::Absent],
-        "int" => [o_val(|| a.int()), Out::Absent, Out::Absent, Out::Absent, Out::Absent],
-        "frac" => [o_val(|| a.frac()), Out::Absent, Out::Absent, Out::Absent, Out::Absent],
-        _ => return,
-    };
-    head(c, "un", op, F::lay());
-    c.wr.raw(",\"a\":");
-    c.wr.num(a.val());
-    c.wr.raw(",\"o\":");
-    c.wr.outs(&o);
-    c.wr.raw("}");
-    c.wr.end();
-}
-
-fn ev_un_s<F: Fx + FixedSigned>(c: &mut Ctx, op: &str, ar: u128) {
-    let a = F::from_raw(ar);
-    let o: [Out; 5] = match op {
-        "neg" => [o_val(|| -a), o_opt(|| a.checked_neg()), o_val(|| a.saturating_neg()), o_val(|| a.wrapping_neg()), o_pair(|| a.overflowing_neg())],
-        "abs" => [o_val(|| a.abs()), o_opt(|| a.checked_abs()), o_val(|| a.saturating_abs()), o_val(|| a.wrapping_abs()), o_pair(|| a.overflowing_abs())],
-        "signum" => [o_val(|| a.signum()), Out::Absent, Out::Absent, Out::Absent, Out::Absent],
-        _ => return,
-    };
-    head(c, "un", op, F::lay());
-    c.wr.raw(",\"a\":");
-    c.wr.num(a.val());
-    c.wr.raw(",\"o\":");
-    c.wr.outs(&o);
-    c.wr.raw("}");
-    c.wr.end();
-}
-
-const BIN: &[&str] = &["add", "sub", "mul", "div", "rem", "div_euclid", "rem_euclid"];
-const BINI: &[&str] = &["mul_int", "div_int", "rem_int", "div_euclid_int", "rem_euclid_int"];
-const UN: &[&str] = &["neg", "ceil", "floor", "round", "round_ties_to_even", "round_to_zero", "int", "frac"];
-const UNS: &[&str] = &["neg", "abs", "signum"];
-
-fn pairs(c: &Ctx, l: Lay, salt: u64) -> Vec<(u128, u128)> {
-    let mut v = vec![];
-    if l.w == 8 {
-        let thorough = c.tier == "thorough";
-        let lat = gen::lattice_small(l);
-        for a in 0..256u128 {
-            for b in 0..256u128 {
-                let pick = thorough || ((a * 7 + b * 13 + (c.seed as u128) + salt as u128) % 8 == 0);
-                if pick {
-                    v.push((a, b));
-                }
-            }
-        }
-        if !thorough {
-            for &a in &lat {
-                for &b in &lat {
-                    v.push((a, b));
-                }
-            }
-        }
-    } else {
-        let mut rng = Rng::new(c.seed ^ (l.w as u64) << 32 ^ (l.f as u64) << 16 ^ (l.s as u64) << 8 ^ salt);
-        let lat = gen::lattice_small(l);
-        for &a in &lat {
-            for &b in &lat {
-                v.push((a, b));
-            }
-        }
-        let n = c.npairs;
-        v.extend(gen::correlated_pairs(l, &mut rng, n));
-        for _ in 0..n {
-            v.push((rng.pattern(l.w), rng.pattern(l.w)));
-        }
-    }
-    v
-}
-
-fn singles(c: &Ctx, l: Lay) -> Vec<u128> {
-    if l.w == 8 {
-        (0..256).collect()
-    } else if l.w == 16 && c.tier == "thorough" {
-        (0..65536).collect()
-    } else {
-        let mut rng = Rng::new(c.seed ^ (l.w as u64) << 32 ^ (l.f as u64) << 16 ^ (l.s as u64) << 8 ^ 77);
-        let mut v = gen::lattice(l, true);
-        v.extend(gen::randoms(l, &mut rng, c.npairs));
-        v
-    }
-}
-
-fn run<F: Fx>(c: &mut Ctx) {
-    let l = F::lay();
-    let ops = c.ops.clone();
-    for (i, op) in ops.iter().enumerate() {
-        let op = op.as_str();
-        if BIN.contains(&op) {
-            for (a, b) in pairs(c, l, i as u64) {
-                ev_bin::<F>(c, op, a, b);
-            }
-        } else if BINI.contains(&op) {
-            for (a, n) in pairs(c, l, 100 + i as u64) {
-                ev_bini::<F>(c, op, a, n);
-            }
-        } else if UN.contains(&op) && !(op == "neg" && F::S) {
-            for a in singles(c, l) {
-                ev_un::<F>(c, op, a);
-            }
-        }
-    }
-}
-fn run_s<F: Fx + FixedSigned>(c: &mut Ctx) {
-    let l = F::lay();
-    let ops = c.ops.clone();
-    for op in ops.iter() {
-        let op = op.as_str();
-        if UNS.contains(&op) {
-            for a in singles(c, l) {
-                ev_un_s::<F>(c, op, a);
-            }
-        }
-    }
-}
+include!("arith_events.rs");
 
 fn main() {
     let o = opts();
@@ -211,6 +17,7 @@ fn main() {
         seed: o.seed,
         pr: PROFILE,
         npairs: if o.n > 0 { o.n as usize } else { 200 },
+        cap: 0,
     };
     let mut t: Vec<Entry<Ctx>> = vec![];
     let mut ts: Vec<Entry<Ctx>> = vec![];
